@@ -484,6 +484,31 @@ func cmdFuzzDec(args []string) {
 				adopted, adoptedEntry = o.bm, en
 			}
 		}
+		// an UNDAMAGED stream decoded into a receiver that already holds something must give the same bitmap as into a fresh one
+		if pb, _ := src.ToBytes(); !frozen && r.Intn(3) == 0 {
+			for _, en := range []int{0, 2, 3, 4} {
+				used := roaring.BitmapOf(1, 2, 3, 70000, 1<<31)
+				used.AddRange(5<<16, 5<<16+5000)
+				var derr error
+				in := append([]byte(nil), pb...)
+				switch en {
+				case 0:
+					_, derr = used.ReadFrom(bytes.NewReader(in))
+				case 2:
+					_, derr = used.FromBuffer(in)
+				case 3:
+					_, derr = used.FromUnsafeBytes(in)
+				default:
+					derr = used.UnmarshalBinary(in)
+				}
+				if derr != nil {
+					atts = append(atts, attempt{en, decodeOutcome{Outcome: "valid-stream-rejected-by-used-receiver", Msg: derr.Error()}, false})
+				} else if !used.Equals(src) {
+					atts = append(atts, attempt{en, decodeOutcome{Outcome: "used-receiver-keeps-old-content", Msg: fmt.Sprintf("cardinality %d, want %d", used.GetCardinality(), src.GetCardinality())}, false})
+				}
+			}
+			cv.Kinds["used-receiver"]++
+		}
 		// every truncation position of a small valid stream, through every entry point: only anomalies are logged
 		// (a panic, a hang, or a proper prefix that is accepted)
 		if pb, _ := src.ToBytes(); !frozen && len(pb) <= 1500 && r.Intn(4) == 0 {
